@@ -35,7 +35,7 @@ def instantiate(e, st, k, n):
 
 def script_job(e, p):
     n = p['n']
-    store = Store(e, n, canary=p.get('canary'))
+    store = Store(e, n, canary=p.get('canary'), features=p.get('features'))
     for k, st in enumerate(p['script']):
         store.step(instantiate(e, st, k, n))
     hs = []
